@@ -108,6 +108,7 @@ fn it_keys_values(sh: Shape) {
     let mut seen = 0usize;
     loop {
         assert!(ks.len() == n - steps && vs.len() == n - steps, "[C08] keys()/values() length is not exact");
+        assert!(ks.size_hint() == (n - steps, Some(n - steps)) && vs.size_hint() == (n - steps, Some(n - steps)), "[C08] keys()/values() size_hint() is not exact");
         match (ks.next(), vs.next()) {
             (Some(k), Some(v)) => {
                 if *k == q {
@@ -142,7 +143,7 @@ fn it_iter_mut(sh: Shape) {
     {
         let mut it = m.iter_mut();
         loop {
-            assert!(it.len() == n - steps, "[C08] iter_mut() length is not exact");
+            assert!(it.len() == n - steps && it.size_hint() == (n - steps, Some(n - steps)), "[C08] iter_mut() len()/size_hint() is not exact");
             match it.next() {
                 Some((k, v)) => {
                     if *k == q {
@@ -183,7 +184,7 @@ fn it_values_mut(sh: Shape) {
     {
         let mut it = m.values_mut();
         loop {
-            assert!(it.len() == n - steps, "[C08] values_mut() length is not exact");
+            assert!(it.len() == n - steps && it.size_hint() == (n - steps, Some(n - steps)), "[C08] values_mut() len()/size_hint() is not exact");
             match it.next() {
                 Some(v) => {
                     *v ^= c;
@@ -215,7 +216,8 @@ fn it_into_iter(sh: Shape, j: usize) {
     let mut steps = 0usize;
     let mut seen = 0usize;
     while steps < j {
-        assert!(it.len() == n - if steps < n { steps } else { n }, "[C08] into_iter() length is not exact");
+        let rem = n - if steps < n { steps } else { n };
+        assert!(it.len() == rem && it.size_hint() == (rem, Some(rem)), "[C08] into_iter() len()/size_hint() is not exact");
         match it.next() {
             Some((k, v)) => {
                 if k == q {
@@ -267,7 +269,8 @@ fn it_drain(sh: Shape, jf: (usize, bool)) {
         let mut steps = 0usize;
         let mut seen = 0usize;
         while steps < j {
-            assert!(it.len() == n - if steps < n { steps } else { n }, "[C08] drain() length is not exact");
+            let rem = n - if steps < n { steps } else { n };
+            assert!(it.len() == rem && it.size_hint() == (rem, Some(rem)), "[C08] drain() len()/size_hint() is not exact");
             match it.next() {
                 Some((k, v)) => {
                     if k == q {
